@@ -828,6 +828,28 @@ impl ZmtpEngine {
   }
 }
 
+#[cfg(rzmq_verif)]
+impl ZmtpEngine {
+  pub fn verif_last_activity(&self) -> Instant {
+    self.last_activity_time
+  }
+  pub fn verif_set_last_activity(&mut self, t: Instant) {
+    self.last_activity_time = t;
+  }
+  pub fn verif_last_ping_sent(&self) -> Option<Instant> {
+    self.last_ping_sent_time
+  }
+  pub fn verif_version(&self) -> Option<ZmtpVersion> {
+    self.version
+  }
+  pub fn verif_partial_len(&self) -> usize {
+    self.partial_batch.len()
+  }
+  pub fn verif_is_server(&self) -> bool {
+    self.is_server
+  }
+}
+
 // --- Module-level helpers ---
 
 fn local_mechanism_name_bytes(config: &ZmtpEngineConfig) -> &'static [u8; MECHANISM_LENGTH] {
